@@ -288,6 +288,68 @@ def audit_mdib(mdib, name: str = 'mdib') -> list[str]:
     return out
 
 
+def audit_entities(mdib, name: str = 'mdib') -> list[str]:
+    """The entity getters are look-ups, too: by_handle / by_parent_handle / by_node_type / items against a scan of the
+    tables (descriptor with its parent, single state or context states, by canonical value)."""
+    out = []
+    descr = {d.Handle: d for d in mdib.descriptions.objects}
+    single = {}
+    for s in mdib.states.objects:
+        single.setdefault(s.DescriptorHandle, []).append(s)
+    multi = {}
+    for s in mdib.context_states.objects:
+        multi.setdefault(s.DescriptorHandle, {})[s.Handle] = s
+
+    def scan_entity(h):
+        d = descr[h]
+        if d.is_context_descriptor:
+            return ('multi', canon(d), d.parent_handle, {sh: canon(st) for sh, st in multi.get(h, {}).items()})
+        st = single.get(h, [None])[0]
+        return ('single', canon(d), d.parent_handle, None if st is None else canon(st))
+
+    def got_entity(e):
+        if e.is_multi_state:
+            return ('multi', canon(e.descriptor), e.parent_handle, {sh: canon(st) for sh, st in e.states.items()})
+        return ('single', canon(e.descriptor), e.parent_handle, None if e.state is None else canon(e.state))
+    ents = mdib.entities
+    try:
+        items = dict(ents.items())
+        if set(items) != set(descr):
+            out.append(f'{name}.entities.items: handles {sorted(set(items) ^ set(descr))[:3]} differ from a scan')
+        for h in descr:
+            e = items.get(h)
+            if e is not None and got_entity(e) != scan_entity(h):
+                out.append(f'{name}.entities.items[{h!r}]: entity differs from the stored descriptor / state(s)')
+                break
+        for h in list(descr)[:8]:
+            e = ents.by_handle(h)
+            if e is None or got_entity(e) != scan_entity(h):
+                out.append(f'{name}.entities.by_handle[{h!r}]: {"None" if e is None else "differs from the stored objects"}')
+                break
+        if ents.by_handle('vf_no_such_handle') is not None:
+            out.append(f'{name}.entities.by_handle: returns an entity for an unknown handle')
+        parents = {d.parent_handle for d in descr.values()}
+        for p in parents:
+            want = sorted(h for h, d in descr.items() if d.parent_handle == p)
+            got = sorted(e.handle for e in ents.by_parent_handle(p))
+            if got != want:
+                out.append(f'{name}.entities.by_parent_handle[{p!r}]: returns {got[:4]}, a scan finds {want[:4]}')
+                break
+        types = {d.NODETYPE for d in descr.values()}
+        for t in types:
+            want = sorted(h for h, d in descr.items() if d.NODETYPE == t)
+            got = sorted(e.handle for e in ents.by_node_type(t))
+            if got != want:
+                out.append(f'{name}.entities.by_node_type[{t.localname}]: returns {got[:4]}, a scan finds {want[:4]}')
+                break
+    except Exception as ex:  # noqa: BLE001
+        from vf import run as R
+        if not R.exc_in_library(ex):
+            raise
+        out.append(f'{name}.entities: getter raises {type(ex).__name__}: {str(ex)[:120]}')
+    return out
+
+
 def referential_problems(mdib) -> list[str]:
     """C02 'at all times' invariants, evaluated by scan."""
     out = []
